@@ -107,6 +107,34 @@ CLAIMED = {
         "note": "That emitted points lie on the curves, the collinear-point pruning, end trimming and the sign classification of segments are numeric and NOT decided. "
                 "Distinctness of record names across equally named zones is data-dependent and not decided.",
     },
+    "C10": {
+        "category": "other",
+        "technique": "static analysis: ownership rule on every insertion into / assignment to a zone's utility collections in the service cone (value must be a copy.deepcopy "
+                     "evaluated in the per-zone function or a fresh empty collection); summation / netting helpers must work on deep copies",
+        "text": "Decides the ownership sentence of C10 ('every zone receives its own independent copy of every utility'): shallow copies, hoisted copies, shared collections "
+                "and accumulation on the originals are reported at the inserting statement. Holds for every zone tree because it is a property of the only code that populates "
+                "those collections.",
+        "design_ref": "DESIGN.md 3.2 OWN",
+        "note": "Stream-to-zone conservation (no stream dropped, duplicated or shared between siblings) depends on label matching at run time and is NOT decided.",
+    },
+    "C17": {
+        "category": "other",
+        "technique": "static analysis: installed-library contract (numpy.cross on 2-vectors, module attribute tables) against provable 2-column operands (row-width facts propagated "
+                     "through resolved calls); structural invariant of the keep-mask in the split-and-keep simplifier; boolean-flag threading",
+        "text": "Decides that the polyline simplifier cannot fail on 2-column curves under the installed numpy, that both end points are kept and order is preserved for "
+                "every input (mask starts all-true and is only cleared on the open interior of popped pairs), and that the hot/cold orientation flag reaches the one-sided refinement.",
+        "design_ref": "DESIGN.md 3.2 API, MASK",
+        "note": "The deviation bounds (1e-6 for redundant-point removal, requested maximum deviation, one-sided tenth) are numeric / SLSQP results and NOT decided.",
+    },
+    "C18": {
+        "category": "other",
+        "technique": "static analysis: effect analysis of the cycle classes - fields written transitively by solve vs. fields assigned by anything reachable from a public query "
+                     "method (including nested functions); must-update-before-read dataflow for the scratch property object on the query side",
+        "text": "Decides the order-independence clause of C18: no query (stream-set builders, profile builders, properties) assigns instance state, so no request can change what "
+                "a later request returns, for every order of requests after solving; the scratch CoolProp state is re-updated in a query before it is read there.",
+        "design_ref": "DESIGN.md 3.2 QEFFECT",
+        "note": "First/second-law balances, COP relations, saturation pressures and the duties carried by the emitted streams come from CoolProp numerics and are NOT decided.",
+    },
 }
 
 _NOT_BUILT = "claimed in DESIGN.md but the check is not built yet in this round"
